@@ -500,6 +500,35 @@ Section check.
         if kle (kind_of te) KS then None else Some (SDestroy e', G, i1, false)
       | None => None
       end
+    (* the else block of a guard must definitely exit: return, halt, break or continue on every path
+       (sema/check_conditional.go VisitGuardStatement: GuardStatementElseBlockMustExitError) *)
+    | SGuard c b =>
+      match check_expr G inv c with
+      | Some (c', TBool, i0) =>
+        match check_block G i0 inloop b with
+        | Some (b', i1, r1) =>
+          if r1 then Some (SGuard c' b', G, union i0 (scope (length G) i1), false) else None
+        | None => None
+        end
+      | _ => None
+      end
+    | SGuardLet e _ b rest =>
+      match check_expr G inv e with
+      | Some (e', TOpt t, i0) =>
+        match check_block G i0 inloop b with
+        | Some (b', i1, r1) =>
+          if r1 then
+            match check_block (G ++ [t]) i0 inloop rest with
+            | Some (rest', i2, r2) =>
+              Some (SGuardLet e' (TOpt t) b' rest', G,
+                    union (scope (length G) i1) (scope (length G) i2), r2)
+            | None => None
+            end
+          else None
+        | None => None
+        end
+      | _ => None
+      end
     end
   (* a block: its variables go out of scope at the end *)
   with check_block (G : list ty) (inv : list nat) (inloop : bool) (b : block) {struct b}
